@@ -338,6 +338,38 @@ impl<D: DependencyProvider, RT: AsyncRuntime> Solver<D, RT> {
         for additional in problem.soft_requirements {
             let additional_var = self.state.variable_map.intern_solvable(additional);
 
+            // A solvable that is requested directly was not necessarily discovered through
+            // a requirement. Make sure that it still cannot be installed together with
+            // another solvable of the same package.
+            let name_id = self.provider().solvable_name(additional);
+            self.state
+                .forbidden_clauses_added
+                .entry(name_id)
+                .or_default()
+                .add(
+                    additional_var,
+                    |a, b, positive| {
+                        let (watched_literals, kind) = WatchedLiterals::forbid_multiple(
+                            a,
+                            if positive { b.positive() } else { b.negative() },
+                            name_id,
+                        );
+                        let clause_id = self.state.clauses.alloc(watched_literals, kind);
+                        let watched_literals = self.state.clauses.watched_literals
+                            [clause_id.to_usize()]
+                        .as_mut()
+                        .expect("forbid clause must have watched literals");
+                        self.state
+                            .watches
+                            .start_watching(watched_literals, clause_id);
+                    },
+                    || {
+                        self.state
+                            .variable_map
+                            .alloc_forbid_multiple_variable(name_id)
+                    },
+                );
+
             if self
                 .state
                 .decision_tracker
